@@ -12,6 +12,14 @@ var stubNode = []string{"Prometheus (reload callback counter + head-series value
 
 func init() {
 	core.Register(&core.Spec{
+		ID: "C16", Engine: "node", Run: c16Run,
+		QuickRuns: 4000, ThorRuns: 300000, QuickCap: 60 * time.Second, ThorCap: 12 * time.Minute,
+		Rule: "a run generates a configuration tree from the catalogue, renders it, and checks: same text -> same hash in two manager instances, in a child OS process and as reported by a real sidecar's runtimeinfo after a push; 1-3 cosmetic variants (indentation, comments, key order, quoting, flow style, document start, trailing blanks, external-label changes) -> same hash; 1-4 single-setting semantic edits (every scalar kind incl. regexes and secrets, SD options, list reorder) -> different hash; a case is (cosmetic kind) or (edit kind x field path)",
+		Real: []string{"prom.ConfigManager.ReloadFromRaw (config.Load + hashstructure)", "sidecar.Service runtimeinfo", "a separate OS process"},
+		Stub: []string{"none for hashing"},
+		Assume: []string{"edits are drawn from per-field value domains that exclude textually different but semantically equal values (e.g. 1m vs 60s)", "whether the coordinator then treats shards as in sync over cycles is exercised by the world engine"},
+	})
+	core.Register(&core.Spec{
 		ID: "C11", Engine: "node", Run: c11Run,
 		QuickRuns: 3000, ThorRuns: 200000, QuickCap: 60 * time.Second, ThorCap: 12 * time.Minute,
 		Rule: "a run starts a real sidecar (push or file mode, self-monitoring on/off) and applies 2-6 operations in any order - a new configuration composed from a catalogue (global, rule_files, alerting with auth, 1-4 jobs with every auth kind / limits / params / honor flags / relabel and metric-relabel programs / static, file, dns, kubernetes, http, consul SD, remote write/read with basic-auth, bearer token, authorization, oauth2, sigv4; every secret a unique token; drawn YAML style) or a new assignment (jobs without targets, targets of a non-existent job, both states, odd label names, params) - and after each one loads the generated file with config.Load and compares it field-wise with the latest configuration x latest assignment; a case is (jobs, remote-write entries, alerting?, jobs with targets, self-monitor, kind of last operation)",
